@@ -49,13 +49,17 @@ def _same_cell_call(g, ctx, sc):
 
 
 SWEEP_KINDS = ['samecell-cold', 'samecell-other', 'repeat-recent', 'identical-cold', 'sameface-cold',
-               'far-cold', 'samecell-hot', 'edge-cold']
+               'far-cold', 'samecell-hot', 'edge-cold', 'samecell-cold@instr', 'repeat-recent@instr',
+               'coarse-cold', 'coarse-other', 'hier-other']
 
 
 def gen_sweep(ctx, rng, kind):
     """An adversarially chosen pair (A, B) with a warm-up, for an exhaustive
     context-bound-2 sweep over A's preemption points."""
     g = Gen(rng, ctx)
+    gran = 'line'
+    if kind.endswith('@instr'):
+        kind, gran = kind[:-6], 'instr'
     cheap = {'segments': 1}
     sc = _same_cell_anchor(g)
     if kind.startswith('edge'):
@@ -72,7 +76,15 @@ def gen_sweep(ctx, rng, kind):
 
     wa, wb = rng.randrange(3), rng.randrange(3)
     warm = []
-    if kind in ('samecell-cold', 'samecell-other', 'samecell-hot', 'edge-cold'):
+    if kind in ('coarse-cold', 'coarse-other', 'hier-other'):
+        mixk = 'coarse' if kind.startswith('coarse') else 'hier'
+        fa = wchoice(rng, {'cell_to_children': 4, 'uncompact': 3, 'get_res0_cells': 1, 'compact': 1})
+        fb = wchoice(rng, {'cell_to_children': 4, 'uncompact': 3, 'get_res0_cells': 1, 'compact': 1, 'cell_to_parent': 1})
+        A = _usable_call(g, ctx, mixk, g.base()) if mixk == 'hier' else g.coarse_call(fa)
+        B = _usable_call(g, ctx, mixk, g.base()) if mixk == 'hier' else g.coarse_call(fb)
+        if kind.endswith('other'):
+            warm = [g.coarse_call(fa) if mixk == 'coarse' else _usable_call(g, ctx, mixk, g.base())]
+    elif kind in ('samecell-cold', 'samecell-other', 'samecell-hot', 'edge-cold'):
         A, B = geo(sc, wa), geo(sc, wb if wb != wa else (wa + 1) % 3)
         if kind == 'samecell-other':
             warm = [geo(_same_cell_anchor(g), rng.randrange(3))]
@@ -94,10 +106,10 @@ def gen_sweep(ctx, rng, kind):
         A = geo(sc, wa)
         B = geo(_same_cell_anchor(g), wb)
     threads = [[A], [B]]
-    solo = [[ctx.oracle(c)['steps'] for c in tc] for tc in threads]
+    solo = [[ctx.oracle(c, gran=gran)['steps'] for c in tc] for tc in threads]
     est = sum(sum(x) for x in solo)
     return {'threads': threads, 'warm': warm, 'plan': {'plan': 'one', 'a': 0, 'k': 0, 'order': [1]}, 'seed': 0,
-            'budget': 20 * est + 100_000, 'est_len': est, 'gran': 'line', 'post': True,
+            'budget': 20 * est + 100_000 * (1 if gran == 'line' else 8), 'est_len': est, 'gran': gran, 'post': True,
             'conf': {'T': 2, 'locality': kind, 'mix': 'geo', 'temp': kind.split('-')[-1], 'counts': [1, 1]}}
 
 
@@ -107,7 +119,7 @@ def gen_spec(ctx, rng, tier, force=None):
     g = Gen(rng, ctx)
     T = force.get('T') or rng.choice([2, 2, 2, 3, 3, 4])
     locality = force.get('locality') or wchoice(rng, {'identical': 10, 'samecell': 15, 'near': 27, 'face': 10, 'edge': 12, 'far': 26})
-    mix = force.get('mix') or wchoice(rng, {'forward': 15, 'inverse': 15, 'boundary': 15, 'geo': 35, 'all': 20})
+    mix = force.get('mix') or wchoice(rng, {'forward': 13, 'inverse': 13, 'boundary': 13, 'geo': 31, 'all': 16, 'hier': 6, 'coarse': 8})
     temp = force.get('temp') or wchoice(rng, {'cold': 40, 'warm': 22, 'hot': 18, 'recent': 12, 'other': 8})
     gran = force.get('gran') or ('instr' if rng.random() < (0.1 if tier == 'thorough' else 0.04) else 'line')
     counts = [rng.randint(1, 3) for _ in range(T)]
@@ -154,9 +166,10 @@ def gen_spec(ctx, rng, tier, force=None):
         # state is non-empty but was left by calls about other cells
         for _ in range(rng.randint(1, 2)):
             warm.append(_usable_call(g, ctx, 'geo', g.base()))
-    solo = [[ctx.oracle(c)['steps'] for c in tc] for tc in threads]
+    solo_line = [[ctx.oracle(c)['steps'] for c in tc] for tc in threads]
+    solo = solo_line if gran == 'line' else [[ctx.oracle(c, gran='instr')['steps'] for c in tc] for tc in threads]
     est = sum(sum(s) for s in solo)
-    budget = 20 * est + 100_000
+    budget = 20 * est + 100_000 * (1 if gran == 'line' else 8)
     plan_kind = force.get('plan') or wchoice(rng, {'rw': 18, 'rwh': 14, 'rwn': 14, 'pct': 10, 'one': 34, 'rr': 10})
     if plan_kind == 'rw':
         plan = {'plan': 'rw', 'p': rng.choice(RW_P)}
@@ -181,7 +194,7 @@ def gen_spec(ctx, rng, tier, force=None):
             off = 0
             locs = {}
             for c, n in zip(threads[a], solo[a]):
-                tr = ctx.oracle(c, want_trace=True)['trace'] or []
+                tr = ctx.oracle(c, want_trace=True, gran=gran)['trace'] or []
                 for j, l in enumerate(tr):
                     if mode == 'line':
                         locs.setdefault(l, []).append(off + j)
@@ -196,11 +209,6 @@ def gen_spec(ctx, rng, tier, force=None):
         order = [x for x in range(T) if x != a]
         rng.shuffle(order)
         plan = {'plan': 'one', 'a': a, 'k': k, 'order': order, 'by_loc': by_loc}
-    if gran == 'instr' and plan['plan'] == 'one':
-        plan['k'] = plan['k'] * 7 + rng.randrange(7)
-    if gran == 'instr':
-        budget *= 10
-        est *= 7
     kill = None
     if gran == 'line' and not force.get('no_kill') and rng.random() < 0.08:
         # fault: one thread's call dies part-way (failed allocation) while the others go on
